@@ -61,11 +61,15 @@ def bulk_cmd(ids, index=IDX):
 
 
 def history(name):
-    """-> list of steps: ('bulk', ids) | ('flush',) | ('rotate',).  ids are global and unique."""
+    """-> list of steps: ('bulk', ids) | ('flush',) | ('rotate',) | ('refresh', id) | ('query', text).  ids are global and
+    unique.  ('refresh', id) is an ingest call that flushes inside the call (flush=true: single-document ?refresh, OTLP
+    shouldFlush): the flush runs inside SegStore.AddEntry, while the ingest call still holds its bookkeeping."""
     H = {
         "f3r": [("bulk", [1, 2]), ("flush",), ("bulk", [3]), ("flush",), ("bulk", [4, 5]), ("flush",), ("rotate",)],
         "rotwip": [("bulk", [1, 2]), ("flush",), ("bulk", [3]), ("rotate",), ("bulk", [4]), ("flush",)],
         "f1": [("bulk", [1]), ("flush",)],
+        # flushes that run INSIDE the ingest call, alone and on top of events waiting in the buffer, then a timer flush
+        "refresh": [("bulk", [1, 2]), ("flush",), ("refresh", 3), ("bulk", [4]), ("refresh", 5), ("refresh", 6), ("bulk", [7]), ("flush",)],
         # the second and third block introduce a column the first block (and the running .sfm) does not know
         "newcol": [("bulk", [1, 2]), ("flush",), ("bulk", [51, 52]), ("flush",), ("bulk", [3, 53]), ("flush",), ("rotate",)],
         "r2": [("bulk", [1, 2]), ("flush",), ("rotate",), ("bulk", [3, 4]), ("flush",), ("rotate",), ("bulk", [5]), ("flush",)],
@@ -92,6 +96,13 @@ def script(hist, data, mark):
             pending += st[1]
         elif st[0] == "query":
             cmds.append({"op": "query", "text": st[1], "index": IDX, "start": 1})
+        elif st[0] == "refresh":
+            k += 1
+            cmds.append({"op": "mark", "file": mark, "text": "flush.begin %d" % k})
+            cmds.append({"op": "ingest_refresh", "org": 0, "index": IDX, "docs": [json.dumps(ev(st[1]))]})
+            cmds.append({"op": "mark", "file": mark, "text": "flush.done %d" % k})
+            calls.append(("flush", k, list(pending) + [st[1]]))
+            pending = []
         else:
             k += 1
             kind = "flush" if st[0] == "flush" else "rot"
@@ -561,7 +572,7 @@ def run(chk):
                                    "CountAgrees": "violated" if "CountAgrees" in rc.violated else "holds"}
     binary = vlib.build_driver()
     rnd = random.Random(chk.seed)
-    names = ["f3r", "rotwip", "tree", "newcol"] if quick else ["f3r", "rotwip", "tree", "newcol", "f1", "r2", "wide"]
+    names = ["f3r", "rotwip", "tree", "newcol", "refresh"] if quick else ["f3r", "rotwip", "tree", "newcol", "refresh", "f1", "r2", "wide"]
     for nm in names:
         run_history(chk, binary, nm, quick, rnd)
     chk.assumptions += [
